@@ -73,6 +73,7 @@ type Exec struct {
 	stack     []*ssa.Function
 	quotSplits int
 	pcDirty   bool
+	observed  []string
 	tables    map[*Value]string
 	ivalChecks int
 	extraSolvers map[string]*Solver
